@@ -420,7 +420,11 @@ def listing_view(group, expect_reserved_free=True):
     group.visit(lambda n: visit.append(n))
     vitems = []
     group.visititems(lambda n, o: vitems.append((n, "g" if is_grouplike(o) else "d", o.name)))
-    return dict(keys=ks, iter=it, items=items, values=vals, len=ln, visit=visit, visititems=vitems)
+    try:
+        rev = list(reversed(group))  # iteration too; a raw group that cannot be reversed (TypeError) exposes nothing
+    except TypeError:
+        rev = None
+    return dict(keys=ks, iter=it, items=items, values=vals, len=ln, visit=visit, visititems=vitems, reversed=rev)
 
 
 def expected_listing(ref_dump, gpath: str):
@@ -445,6 +449,8 @@ def check_listing(got, exp):
     for name in ("keys", "iter"):
         if sorted(got[name]) != exp["keys"]:
             bad.append(f"{name}={sorted(got[name])} expected {exp['keys']}")
+    if got.get("reversed") is not None and sorted(got["reversed"]) != exp["keys"]:
+        bad.append(f"reversed={sorted(got['reversed'])} expected {exp['keys']}")
     if sorted(got["items"]) != exp["items"]:
         bad.append(f"items={sorted(got['items'])} expected {exp['items']}")
     if sorted(got["values"]) != exp["values"]:
